@@ -5,7 +5,10 @@
 //      seeded reader) and a second, *parallel* session with other seeds;
 //   2. lists every tampering (message record × site × operator, c04_tree.go): the message of
 //      (round, sender, recipient | broadcast) is replaced, through the Hook, by a mutated CBOR
-//      encoding — a broadcast identically for all recipients, a unicast for its recipient;
+//      encoding — a broadcast identically for all recipients, a unicast for its recipient; plus the
+//      RELATIONAL tamperings (c04_rel.go): two sites of one message changed together so that sums /
+//      aggregates stay intact (paired shift, inverse scaling, swap, copy), and the same leaf of the
+//      unicasts of one sender to TWO recipients (both messages replaced);
 //   3. re-runs the protocol with the SAME seeds and that one replacement and records the final class
 //      of every party (ok | abort | abort-blame:<ids> | err:<class> | panic | hang), the class of the
 //      aggregator (signing protocols; `-` otherwise) and the validity of whatever honest parties /
@@ -16,9 +19,12 @@
 //   C04 tamper <proto> <cfg> <round> <sender> <rcpt|b> <path> <op> <changed> <ids> => (same rhs)
 //        round   the round whose OUTPUT the message is; partial signatures travel to the aggregator in
 //                the round after the last protocol round, as broadcasts
-//        path    site inside the message (c04_tree.go), `msg` for whole-message operators
+//        rcpt    recipient of the unicast, `b` for a broadcast, `<A>+<B>` when the unicasts to two
+//                recipients are changed together (ushift uscale uswap)
+//        path    site inside the message (c04_tree.go), `msg` for whole-message operators,
+//                `<pathA>~<pathB>` for the relational operators inside one message
 //        changed 1 the decoded value differs / 0 same value re-encoded / u undecodable at the
-//                recipient (= missing message) / d dropped
+//                recipient (= missing message) / d dropped; `<cA>+<cB>` per recipient for `<A>+<B>`
 //   The Lean driver (Drive/C04.lean) classifies <proto,round,b|u,path> against the check graph
 //   (Model/CheckGraph.lean) and decides the verdict; BAD keys accepted-bound-leaf, blamed-honest,
 //   bad-output-released, panic, hang.
@@ -28,10 +34,14 @@
 // output that an independent verifier rejects (signature: library verifier and crypto/ecdsa; shard:
 // lift(share) ≠ M·V, public keys of completing honest parties differ, redistribution changed pk).
 //
-// quick: a stratified sample per scenario — strata = (round, kind, leaf path), all map sites resp. all
-// array sites of a message kind being one stratum each; strata are visited in turn, inside a stratum
+// quick: a stratified sample per scenario — strata = (round, kind, leaf path with array position 0 and
+// the later positions as different strata), all map sites resp. all array sites of a message kind
+// being one stratum each; relational tamperings have their own strata (round, kind, SENDER, path pair)
+// and their own budget; strata are visited in turn, inside a stratum the senders take turns and
 // operators that substitute another VALID value (par / replay / swapr / swapf: they reach the semantic
-// checks) alternate with the others; sender, recipient and operator by the seed. thorough: every
+// checks; relational strata: the aggregate-preserving shift) alternate with the others; the rest by
+// the seed. Scenarios: ideal AND non-ideal access structures (a party owning several MSP rows), minimal
+// and non-minimal quorums, sparse IDs (c04_scen.go). thorough: every
 // applicable tampering of the 3-party runs (capped per scenario for the slow protocols: the cap and
 // the population are in the statistics).
 // `site=<proto>/r<round>/<b|u>/<normalised path>/<op>` in a !VIOLATION (and in the driver's BAD) is the
@@ -63,7 +73,9 @@ type c04Res struct {
 type c04Scn struct {
 	proto, cfg string
 	quick      int // sample size in the quick tier (0: thorough only)
+	quickRel   int // additional sample of RELATIONAL tamperings (c04_rel.go) in the quick tier
 	cap        int // cap in the thorough tier (0: exhaustive)
+	curve      string // scalar field of the 32-byte scalars in the messages: "" = secp256k1, "bls"
 	run        func(seed int64, base uint64, hook Hook) *c04Res
 	// label renames the protocol for a sender whose role differs (redistribution newcomer: it deals
 	// nothing, its placeholder messages are ignored by everybody); nil: proto
@@ -74,6 +86,9 @@ type c04Case struct {
 	rec      int // index into the honest log
 	path, op string
 	mut      []byte // nil for drop
+	// relational tampering between the unicasts to two recipients: the second message (-1: none)
+	rec2 int
+	mut2 []byte
 }
 
 type c04Prepared struct {
@@ -82,6 +97,8 @@ type c04Prepared struct {
 	log    []MsgRecord
 	cases  []c04Case
 	groups map[string][]int
+	// strata of the relational tamperings: (round, kind, SENDER, normalised path pair)
+	relGroups map[string][]int
 	pop    int
 	failed bool
 }
@@ -113,7 +130,8 @@ func c04Tree(b []byte) *c12Node {
 // c04Prepare runs the honest and the parallel session and lists the tamperings.
 func c04Prepare(o *jobOut, seed int64, idx int, scn c04Scn, thorough bool) *c04Prepared {
 	base := uint64(4000 + 1000*idx)
-	p := &c04Prepared{scn: scn, groups: map[string][]int{}}
+	p := &c04Prepared{scn: scn, groups: map[string][]int{}, relGroups: map[string][]int{}}
+	relRng := NewRng(seed, base+900)
 	h := scn.run(seed, base, nil)
 	p.ids = h.net.IDs
 	rhs := c04StatusOf(h) + h.out(0)
@@ -161,7 +179,7 @@ func c04Prepare(o *jobOut, seed int64, idx int, scn c04Scn, thorough bool) *c04P
 		add := func(path, op string, mut []byte) {
 			// strata: one per leaf path; all map sites (resp. array sites) of a message kind form ONE
 			// stratum, so that container operators do not crowd out the leaves in the quick sample
-			np := c04NormPath(path)
+			np := c04StratPath(path)
 			switch {
 			case strings.HasSuffix(np, "{}"):
 				np = "{}"
@@ -170,7 +188,12 @@ func c04Prepare(o *jobOut, seed int64, idx int, scn c04Scn, thorough bool) *c04P
 			}
 			key := fmt.Sprintf("r%d.%s.%s", rec.Round, kind, np)
 			p.groups[key] = append(p.groups[key], len(p.cases))
-			p.cases = append(p.cases, c04Case{ri, path, op, mut})
+			p.cases = append(p.cases, c04Case{ri, path, op, mut, -1, nil})
+		}
+		addRel := func(path, op string, mut []byte, rec2 int, mut2 []byte) {
+			key := fmt.Sprintf("rel.r%d.%s.s%d.%s", rec.Round, kind, rec.From, c04NormPath(path))
+			p.relGroups[key] = append(p.relGroups[key], len(p.cases))
+			p.cases = append(p.cases, c04Case{ri, path, op, mut, rec2, mut2})
 		}
 		add("msg", "drop", nil)
 		for _, op := range []string{"par", "replay", "swapr"} {
@@ -185,10 +208,31 @@ func c04Prepare(o *jobOut, seed int64, idx int, scn c04Scn, thorough bool) *c04P
 				}
 			}
 		}
+		// relational operators: two sites of one message; the unicasts to two recipients
+		for _, rc := range c04RelCases(rec.Orig, scn.curve, relRng) {
+			addRel(rc.path, rc.op, rc.mut, -1, nil)
+		}
+		if !rec.Broadcast {
+			for _, other := range p.ids {
+				if other <= rec.To || other == rec.From {
+					continue
+				}
+				if j, ok := c04FindRec(p.log, rec.Round, rec.From, other, false); ok {
+					for _, rc := range c04RelPairCases(rec.Orig, p.log[j].Orig, scn.curve, relRng) {
+						addRel(rc.path, rc.op, rc.mutA, j, rc.mutB)
+					}
+					break
+				}
+			}
+		}
 	}
 	p.pop = len(p.cases)
 	o.Count(fmt.Sprintf("population.%s.%s", scn.proto, scn.cfg))
-	o.Note(fmt.Sprintf("population %s %s tamperings=%d groups=%d messages=%d", scn.proto, scn.cfg, p.pop, len(p.groups), len(p.log)))
+	nrel := 0
+	for _, g := range p.relGroups {
+		nrel += len(g)
+	}
+	o.Note(fmt.Sprintf("population %s %s tamperings=%d (relational %d) groups=%d relgroups=%d messages=%d", scn.proto, scn.cfg, p.pop, nrel, len(p.groups), len(p.relGroups), len(p.log)))
 	if os.Getenv("C04_DUMP") != "" {
 		keys := make([]string, 0, len(p.groups))
 		for k := range p.groups {
@@ -198,57 +242,71 @@ func c04Prepare(o *jobOut, seed int64, idx int, scn c04Scn, thorough bool) *c04P
 		for _, k := range keys {
 			o.Note(fmt.Sprintf("site %s %s %s n=%d", scn.proto, scn.cfg, k, len(p.groups[k])))
 		}
+		keys = keys[:0]
+		for k := range p.relGroups {
+			keys = append(keys, k)
+		}
+		sort.Strings(keys)
+		for _, k := range keys {
+			o.Note(fmt.Sprintf("site %s %s %s n=%d", scn.proto, scn.cfg, k, len(p.relGroups[k])))
+		}
 	}
 	_ = thorough
 	return p
 }
 
-// c04Select picks the cases to run: all (thorough, up to the cap) or a stratified sample.
-func c04Select(p *c04Prepared, r *Rng, thorough bool) []int {
-	want := p.scn.quick
-	if thorough {
-		want = p.scn.cap
-		if want == 0 || want >= len(p.cases) {
-			out := make([]int, len(p.cases))
-			for i := range out {
-				out[i] = i
-			}
-			return out
+// c04Order orders the cases of one stratum: the senders take turns (random start), and for each sender
+// operators that substitute another VALID value of the same kind (par / replay / swapr / swapf: they
+// reach the semantic checks) alternate with the others (mostly caught by decoding / validation);
+// relational strata: the aggregate-preserving shift first.
+func c04Order(p *c04Prepared, g []int, r *Rng) []int {
+	g = append([]int{}, g...)
+	r.Shuffle(len(g), func(i, j int) { g[i], g[j] = g[j], g[i] })
+	type lane struct{ pref, rest []int }
+	lanes := map[ID]*lane{}
+	var senders []ID
+	for _, ci := range g {
+		from := p.log[p.cases[ci].rec].From
+		l, ok := lanes[from]
+		if !ok {
+			l = &lane{}
+			lanes[from] = l
+			senders = append(senders, from)
+		}
+		switch p.cases[ci].op {
+		case "par", "replay", "swapr", "swapf", "pshift", "ushift":
+			l.pref = append(l.pref, ci)
+		default:
+			l.rest = append(l.rest, ci)
 		}
 	}
-	if want > len(p.cases) {
-		want = len(p.cases)
+	var out []int
+	for turn := 0; len(out) < len(g); turn++ {
+		for si, s := range senders {
+			l := lanes[s]
+			wantPref := (turn+si)%2 == 0
+			switch {
+			case len(l.pref) > 0 && (wantPref || len(l.rest) == 0):
+				out, l.pref = append(out, l.pref[0]), l.pref[1:]
+			case len(l.rest) > 0:
+				out, l.rest = append(out, l.rest[0]), l.rest[1:]
+			}
+		}
 	}
-	keys := make([]string, 0, len(p.groups))
-	for k := range p.groups {
+	return out
+}
+
+// c04Sample: round-robin over the strata (shuffled), `want` cases.
+func c04Sample(p *c04Prepared, groups map[string][]int, r *Rng, want int) []int {
+	keys := make([]string, 0, len(groups))
+	for k := range groups {
 		keys = append(keys, k)
 	}
 	sort.Strings(keys)
 	r.Shuffle(len(keys), func(i, j int) { keys[i], keys[j] = keys[j], keys[i] })
 	perm := map[string][]int{}
 	for _, k := range keys {
-		g := append([]int{}, p.groups[k]...)
-		r.Shuffle(len(g), func(i, j int) { g[i], g[j] = g[j], g[i] })
-		// within a stratum alternate between operators that substitute another VALID value of the same
-		// kind (they reach the semantic checks) and the others (mostly caught by decoding / validation)
-		var pref, rest, mixed []int
-		for _, ci := range g {
-			switch p.cases[ci].op {
-			case "par", "replay", "swapr", "swapf":
-				pref = append(pref, ci)
-			default:
-				rest = append(rest, ci)
-			}
-		}
-		for len(pref) > 0 || len(rest) > 0 {
-			if len(pref) > 0 {
-				mixed, pref = append(mixed, pref[0]), pref[1:]
-			}
-			if len(rest) > 0 {
-				mixed, rest = append(mixed, rest[0]), rest[1:]
-			}
-		}
-		perm[k] = mixed
+		perm[k] = c04Order(p, groups[k], r)
 	}
 	var out []int
 	for len(out) < want {
@@ -268,6 +326,31 @@ func c04Select(p *c04Prepared, r *Rng, thorough bool) []int {
 			break
 		}
 	}
+	return out
+}
+
+// c04Select picks the cases to run: all (thorough, up to the cap) or a stratified sample of the
+// single-site tamperings plus a stratified sample of the relational ones.
+func c04Select(p *c04Prepared, r *Rng, thorough bool) []int {
+	if thorough {
+		if p.scn.cap == 0 || p.scn.cap >= len(p.cases) {
+			out := make([]int, len(p.cases))
+			for i := range out {
+				out[i] = i
+			}
+			return out
+		}
+		nrel := 0
+		for _, g := range p.relGroups {
+			nrel += len(g)
+		}
+		// the cap is split in proportion, at least a quarter for the relational operators
+		wantRel := max(p.scn.cap*nrel/len(p.cases), p.scn.cap/4)
+		out := append(c04Sample(p, p.groups, r, p.scn.cap-wantRel), c04Sample(p, p.relGroups, r, wantRel)...)
+		sort.Ints(out)
+		return out
+	}
+	out := append(c04Sample(p, p.groups, r, p.scn.quick), c04Sample(p, p.relGroups, r, p.scn.quickRel)...)
 	sort.Ints(out)
 	return out
 }
@@ -284,9 +367,18 @@ func c04Blamed(cls string) []ID {
 func c04RunCase(o *jobOut, seed int64, idx int, p *c04Prepared, cs c04Case) {
 	base := uint64(4000 + 1000*idx)
 	rec := p.log[cs.rec]
-	hits := 0
-	typedChanged := ""
+	hits, hits2 := 0, 0
+	typedChanged, typedChanged2 := "", ""
+	var rec2 MsgRecord
+	if cs.rec2 >= 0 {
+		rec2 = p.log[cs.rec2]
+	}
 	hook := HookFunc(func(_ string, round int, from, to ID, bcast bool, msg any) (any, bool) {
+		if cs.rec2 >= 0 && round == rec2.Round && from == rec2.From && !bcast && to == rec2.To && hits2 == 0 {
+			hits2++
+			typedChanged2 = c04ChangedTyped(msg, rec2.Orig, cs.mut2)
+			return cs.mut2, false
+		}
 		if round != rec.Round || from != rec.From || bcast != rec.Broadcast || (!bcast && to != rec.To) || hits > 0 {
 			return msg, false
 		}
@@ -303,6 +395,9 @@ func c04RunCase(o *jobOut, seed int64, idx int, p *c04Prepared, cs c04Case) {
 	if !rec.Broadcast {
 		rcpt = fmt.Sprintf("%d", rec.To)
 		kind = "u"
+		if cs.rec2 >= 0 {
+			rcpt = fmt.Sprintf("%d+%d", rec.To, rec2.To)
+		}
 	}
 	proto := p.scn.proto
 	if p.scn.label != nil {
@@ -310,7 +405,7 @@ func c04RunCase(o *jobOut, seed int64, idx int, p *c04Prepared, cs c04Case) {
 	}
 	// `site=` is the stable identifier of a finding (protocol / round / kind / normalised path / operator)
 	tag := fmt.Sprintf("site=%s/r%d/%s/%s/%s cfg=%s sender=%d rcpt=%s path=%s seed=%d", proto, rec.Round, kind, c04NormPath(cs.path), cs.op, p.scn.cfg, rec.From, rcpt, cs.path, seed)
-	if hits == 0 {
+	if hits == 0 || (cs.rec2 >= 0 && hits2 == 0) {
 		o.Note("tampering not reached " + tag)
 		o.Count("not-reached")
 		return
@@ -320,6 +415,13 @@ func c04RunCase(o *jobOut, seed int64, idx int, p *c04Prepared, cs c04Case) {
 		changed = typedChanged
 		if j, ok := c04FindRec(res.net.Log, rec.Round, rec.From, rec.To, rec.Broadcast); ok && len(res.net.Log[j].Undecodable) > 0 {
 			changed = "u"
+		}
+		if cs.rec2 >= 0 {
+			c2 := typedChanged2
+			if j, ok := c04FindRec(res.net.Log, rec2.Round, rec2.From, rec2.To, false); ok && len(res.net.Log[j].Undecodable) > 0 {
+				c2 = "u"
+			}
+			changed += "+" + c2
 		}
 	}
 	out := res.out(rec.From)
@@ -345,7 +447,7 @@ func c04RunCase(o *jobOut, seed int64, idx int, p *c04Prepared, cs c04Case) {
 		o.Count("outcome.rejected")
 	} else {
 		o.Count("outcome.accepted")
-		if changed != "0" {
+		if changed != "0" && changed != "0+0" {
 			o.Count("accepted-changed." + site)
 		}
 	}
@@ -379,6 +481,15 @@ func c04RunCase(o *jobOut, seed int64, idx int, p *c04Prepared, cs c04Case) {
 
 func runC04(c *Ctx) {
 	scns := c04Scenarios(c.Thorough())
+	if only := os.Getenv("C04_ONLY"); only != "" { // debugging aid: C04_ONLY=boldyreva.n2,gennaro.n
+		var keep []c04Scn
+		for _, s := range scns {
+			if strings.Contains(","+only+",", ","+s.proto+"."+s.cfg+",") || strings.Contains(","+only+",", ","+s.proto+",") {
+				keep = append(keep, s)
+			}
+		}
+		scns = keep
+	}
 	par := runtime.NumCPU() - 2
 	if par < 4 {
 		par = 4
